@@ -157,7 +157,7 @@ def check(ctx, text, with_comments, origin):
         if [id(n) for n in f] != [id(n) for n in exp]:
             viol.append(('C16:filter_differs_from_walk_select',
                          'filter(%s) yielded %d nodes, walk-then-select %d (%s)' % (name, len(f), len(exp), label)))
-        for skip in (0, 1, len(exp) - 1, len(exp), len(exp) + 3):
+        for skip in (0, 1, len(exp) - 1, len(exp), len(exp) + 1, len(exp) + 3):
             if skip < 0:
                 continue
             try:
@@ -176,6 +176,12 @@ def check(ctx, text, with_comments, origin):
                     viol.append(('C16:extract_reports_no_match',
                                  'extract(%s, skip=%d) raised TypeError though %d nodes match (%s)' % (
                                      name, skip, len(exp), label)))
+            except Exception as e:
+                # "no such match" is reported with TypeError; anything else (a StopIteration leaking out of the
+                # skipping loop ends a caller's own generator silently) is not a report
+                viol.append(('C16:extract_raised_%s' % type(e).__name__,
+                             'extract(%s, skip=%d) with %d matching nodes raised %s: %s (%s)' % (
+                                 name, skip, len(exp), type(e).__name__, e, label)))
     seen = set()
     for mech, detail in viol:
         if mech in seen:
